@@ -109,7 +109,7 @@ module.exports = mk({
     else if (t.map.version !== 3) v('trailer-version', 'version', 'embedded map version is ' + t.map.version)
   },
   bound: (tier) => ({ deviations_k: tier === 'thorough' ? 3 : 2, syntax_contexts: CONTEXTS.length, corpus_files: tier === 'thorough' ? 'all' : 80 }),
-  rule: 'leaf = program of families A,B,C,G, or grammar-sensitive context x operation x comments setting, or corpus file x config; non-trivial = V8 accepts the input in the kind swc detected and the rewriter modified it; distinct by (text, config, file)',
+  rule: 'leaf = program of families A,B,C,G, or grammar-sensitive context x operation x comments setting, tight positions (16 operations bare in 84 positions), lexical tokens (prefix x escape x suffix per literal kind x 4 places), reserved-name placements, prefix / replacement-name values, helper names, or corpus file x config; non-trivial = V8 accepts the input in the kind swc detected and the rewriter modified it; distinct by (text, config, file)',
   explanation: 'explicit enumeration + real library files; oracle = content re-parsed by the repo\'s own parser (same options, same kind) and compiled (not run) by V8 as module / CommonJS function body, trailer decoded',
   assumptions: ['V8 of Node 20 defines "Node itself can parse"; scripts are compiled the way Node loads CommonJS files (function wrapper), modules with vm.SourceTextModule']
 })
